@@ -264,8 +264,9 @@ def rules(ctx: Ctx) -> None:
         ctx.touched(acc)
         rets = [n for n in prog.walk_fn(acc) if isinstance(n, ast.Return) and n.value is not None]
         ok = False
-        if len(rets) == 1 and isinstance(rets[0].value, ast.Call) and isinstance(rets[0].value.func, ast.Name) and rets[0].value.func.id == "sorted":
-            call = rets[0].value
+        rv = prog.value_sources(acc, rets[0].value) if len(rets) == 1 else []
+        if len(rv) == 1 and isinstance(rv[0], ast.Call) and isinstance(rv[0].func, ast.Name) and rv[0].func.id == "sorted":
+            call = rv[0]
             src_ok = call.args and u(call.args[0]).endswith(f".{role}")
             key = next((k.value for k in call.keywords if k.arg == "key"), None)
             key_ok = key is not None and (isinstance(key, ast.Lambda) and canon_str_of(key.body) == key.args.args[0].arg or u(key) == "str")
